@@ -61,12 +61,12 @@ def verify_monitor_elaborate():
             if ast.unparse(st_node.iter) != "self.src.event_map.sources()":
                 ex_.unsupported(st_node, "another loop")
             body = path.fork()
-            marks["start"] = len(log.entries)
+            start_ = len(log.entries)
             out = []
             for kind, _, q2 in ex_.assign(st_node.target, Tup((sub, IDX)), body, st_node):
                 for kind2, val2, q3 in ex_.block(st_node.body, q2):
                     if kind2 in ("fall", "continue"):
-                        marks.setdefault("ends", []).append((q3, len(log.entries)))
+                        marks.setdefault("ends", []).append((q3, len(log.entries), start_))
                     else:
                         out.append((kind2, val2, q3))
             marks["after"] = len(log.entries)
@@ -90,10 +90,10 @@ def verify_monitor_elaborate():
             fv.add("no-exception", f"{mode}:path{k}", o.path.pc, z3.BoolVal(o.kind == "return"))
         i_, trg = sub.init_fields["i"].expr, sub.init_fields["trg"].expr
         pend, clr, en = (self_.init_fields[x].expr for x in ("pending", "clear", "enable"))
-        for qend, upto in marks.get("ends", []):
+        for qend, upto, start_ in marks.get("ends", []):
             n_iter += 1
             lab = f"{mode}:source"
-            mine = [e for e in log.entries[marks["start"]:upto] if all(any(f.eq(g) for g in qend.pc) for f in e["path"].pc)]
+            mine = [e for e in log.entries[start_:upto] if all(any(f.eq(g) for g in qend.pc) for f in e["path"].pc)]
             ir = Expr("sig", "sub_i_r")
             exp = []
             if mode != "LEVEL":
